@@ -247,7 +247,13 @@ def check_cat_case(ctx, c):
     queries = []
     ns = c.get('ns') or list(range(1, NMAX + 1))
     pristine = [{k: v.copy() for k, v in t.items()} for t in (tabA[0], tabA[1], tabB[0], tabB[1])]
+    nfail0 = len(ctx.failures)
     for n in ns:
+        if len(ctx.failures) > nfail0 + 3:
+            # fail fast: a real run that misplaces rows may also have written outside its arrays; do not keep
+            # driving a process whose heap may be corrupt before the failures found so far are reported
+            ctx.count('cat:case-cut-short-after-failures')
+            break
         for fam, tab in (('A', tabA), ('B', tabB)):
             case_n = dict(c, n=n, fam=fam)
             try:
@@ -550,6 +556,9 @@ def run(ctx):
         dispatch(ctx, c)
     check_rejects_zero_threads(ctx)
     for c in cat_cases(ctx):
+        if len(ctx.failures) >= 12:
+            ctx.count('cat:sweep-cut-short-after-failures')
+            break
         check_cat_case(ctx, c)
     check_fastconcat(ctx, dtypes=(np.int64, np.float64))
     check_blocks(ctx)
